@@ -9,8 +9,12 @@ res = {}
 import glob
 for rp in sorted(glob.glob(os.path.join(VERIF, 'seeded', 'results*.json')), key=os.path.getmtime):
     for k, v in json.load(open(rp)).items():
-        if k not in res or v.get('checks'):
+        if k not in res:
             res[k] = v
+        elif v.get('checks'):      # later runs add/replace per-check verdicts, other checks' verdicts are kept
+            merged = dict(res[k].get('checks', {}))
+            merged.update(v['checks'])
+            res[k] = dict(v, checks=merged)
 rows = ['| seed | breaks | change (needs) | caught by | missed by |', '|---|---|---|---|---|']
 for sid in sorted(os.listdir(os.path.join(VERIF, 'seeded'))):
     mp = os.path.join(VERIF, 'seeded', sid, 'meta.json')
